@@ -1,7 +1,7 @@
 (* C10 - distribution-free p-boxes enclose every distribution meeting the constraints.
    free_min_mean / free_mean_std are generated from pbox_free.py on every run.  A finite distribution is a list of atoms with weights. *)
 From Coq Require Import Reals List.
-From PUN Require Import Base.Num Gen.GenFree Proofs.ListR Proofs.WFExpr Proofs.Free.
+From PUN Require Import Base.Num Gen.GenFree Proofs.ListR Proofs.WFExpr Proofs.Free Proofs.FreeTight.
 Import ListNotations.
 Open Scope R_scope.
 
@@ -67,3 +67,19 @@ Theorem C10_min_max_median_ordered pvals mn mx med l r k : mn <> mx -> mn <= med
 Proof. intros Hne. exact (median_ordered pvals mn mx med Hne l r k). Qed.
 Print Assumptions C10_min_max_median_left.
 Print Assumptions C10_min_max_median_right.
+
+(* "The bounds are not vacuous": for every level p the classical extremal two-point distribution satisfies the constraints and has the
+   bound itself as its quantile at level p - the value q = bound meets the hypothesis of the corresponding soundness theorem above, so no
+   smaller upper bound (larger lower bound) is valid for all admissible distributions. *)
+Theorem C10_markov_upper_tight mn mu p : mn <= mu -> 0 <= p < 1 ->
+  exists ws xs, dist_ok ws xs /\ Forall (fun x => mn <= x) xs /\ mean_of ws xs = mu /\ mass (fun x => Rltb x (mn + (mu - mn) / (1 - p))) ws xs <= p.
+Proof. exact (markov_upper_tight mn mu p). Qed.
+Theorem C10_markov_lower_tight mx mu p : mu <= mx -> 0 < p <= 1 ->
+  exists ws xs, dist_ok ws xs /\ Forall (fun x => x <= mx) xs /\ mean_of ws xs = mu /\ p <= mass (fun x => Rleb x (mx - (mx - mu) / p)) ws xs.
+Proof. exact (markov_lower_tight mx mu p). Qed.
+Theorem C10_cantelli_tight mu sd p : 0 <= sd -> 0 < p < 1 ->
+  exists ws xs, dist_ok ws xs /\ mean_of ws xs = mu /\ var_of ws xs = sd * sd /\
+    mass (fun x => Rltb x (mu + sd * sqrt (p / (1 - p)))) ws xs <= p /\ p <= mass (fun x => Rleb x (mu - sd * sqrt (1 / p - 1))) ws xs.
+Proof. exact (cantelli_tight mu sd p). Qed.
+Print Assumptions C10_markov_upper_tight.
+Print Assumptions C10_cantelli_tight.
